@@ -12,13 +12,14 @@ def run(ctx):
         inp = ctx.path("in", "behaviours.ndjson")
         with open(inp, "w") as fh:
             fh.write(json.dumps(dict(rootTh=d["rootTh"], steps=d["behaviour"], delta=d["delta"], salt=d["salt"])) + "\n")
-        ctx.absorb(ctx.go_replay("txlocator", "TestReplay", inp))
+        test = "TestReplayTransitions" if d.get("level") == "transition" else "TestReplay"
+        ctx.absorb(ctx.go_replay("txlocator", test, inp))
         return ctx.finish(rule="re-execution of one recorded behaviour")
     import os
     fast = bool(os.environ.get("VERIF_DEV_SKIP_MC"))   # development knob for mutant self-tests only
     # 1. exhaustive model check of the locator model written the way the window requires
     #    (Impl="required"): every tree of blocks, timestamps, thresholds, commit and flush timing
-    big = dict(Ids="{a, b}", MaxTs=4, Ths="{1, 2}", MaxNodes=4, MaxList=1)
+    big = dict(Ids="{a, b}", MaxTs=3, Ths="{1, 2}", MaxNodes=4, MaxList=1)
     small = dict(Ids="{a, b}", MaxTs=4, Ths="{1, 2}", MaxNodes=3, MaxList=2)
     if not fast:
         r = ctx.model_check("exec", "MC_TxLocator", "MC_TxLocator.cfg", constants=small, coverage=True,
@@ -70,6 +71,21 @@ def run(ctx):
     # 3. replay into txlocator.NewManager + service.NewTXIDManager / TXIDLogger + window check
     recs = ctx.go_replay("txlocator", "TestReplay", inp, shards=ctx.pick(2, 4), timeout=ctx.pick(600, 1800))
     ctx.absorb(recs)
+    # 3b. transition level: the behaviours whose blocks all use one threshold (it is read from the world state) are
+    #     replayed as real transitions (ensureRecordTXIDs + validateTxs of really executed blocks, FinalizeTransition)
+    same = [b for b in allb if all(s["th"] == b["rootTh"] for s in b["steps"] if s["op"] == "block")]
+    if not ctx.quick():
+        extra = ctx.behaviours("exec", "Gen_TxLocator", "Gen_TxLocatorRej.cfg",
+                               constants=dict(Ths="{2}", MaxOps=4, Depth=4), timeout=1800)
+        same += [_wrap(b) for b in extra]
+    same = same[:ctx.pick(1500, 15000)]
+    inp2 = ctx.path("in", "transitions.ndjson")
+    with open(inp2, "w") as fh:
+        for b in same:
+            fh.write(json.dumps(b) + "\n")
+    ctx.log("transition-level replay of %d behaviours with one threshold" % len(same))
+    recs2 = ctx.go_replay("txlocator", "TestReplayTransitions", inp2, shards=ctx.pick(2, 4), timeout=ctx.pick(600, 1800))
+    ctx.absorb(recs2)
     for b in (walks[:1] + bs[-1:]):
         ctx.sample([{k: s[k] for k in ("op", "n", "p", "ts", "th", "l", "id", "res", "cls")} for s in b])
     return ctx.finish(
@@ -77,7 +93,8 @@ def run(ctx):
              "completions and Has queries on a tree of blocks (all %d-call scenarios ending in a duplicate rejection by "
              "BFS + %d random walks of depth %d/%d); "
              "distinct by its call sequence and timestamp assignment; non-trivial if it contains a rejected block or a "
-             "positive Has" % (depth, len(walks) + len(walks2), wl, wl2),
+             "positive Has; the behaviours with one threshold are replayed a second time as real transitions"
+             % (depth, len(walks) + len(walks2), wl, wl2),
         assumptions=["one manager instance without restart; normal transaction group only",
                      "block timestamps strictly increase along a chain; thresholds may differ per block",
                      "a block is validated by New+Add back to back (as transition.ensureRecordTXIDsInLock does); "
